@@ -1,7 +1,7 @@
 #!/bin/sh
 # tools/eval_seeded.sh <Cxx> <name> [props-to-run...]: confirm a sub-agent's change in a fresh scratch worktree, then run checks against it
 P=$1; NAME=$2; shift 2; PROPS="${*:-$P}"
-SRC=/tmp/agents/wt_$P; DST=/verif/seeded/$NAME; W=/var/tmp/seed_eval_$$
+SRC=${SEED_SRC:-/tmp/agents}/wt_$P; DST=/verif/seeded/$NAME; W=/var/tmp/seed_eval_$$
 mkdir -p "$DST"; cp "$SRC/patch.diff" "$SRC/meta.json" "$DST/" 2>/dev/null; cp "$SRC"/demo*.py "$DST/" 2>/dev/null
 git -C /repo worktree add --detach -q "$W" main || exit 2
 trap 'git -C /repo worktree remove --force "$W" >/dev/null 2>&1' EXIT
